@@ -30,7 +30,7 @@ from exabgp.configuration.schema import (
     ActionKey,
 )
 
-from exabgp.configuration.static.parser import aigp, attribute, prefix, watchdog, withdraw
+from exabgp.configuration.static.parser import aigp, atomic_aggregate, attribute, cluster_list, originator_id, prefix, watchdog, withdraw
 from exabgp.configuration.static.parser import name as named
 from exabgp.configuration.validator import LegacyParserValidator
 
@@ -88,6 +88,7 @@ class AnnounceIP(ParseAnnounce):
                 target=ActionTarget.ATTRIBUTE,
                 operation=ActionOperation.ADD,
                 key=ActionKey.NAME,
+                validator=LegacyParserValidator(parser_func=atomic_aggregate, name='atomic-aggregate'),
             ),
             'aggregator': Leaf(
                 type=ValueType.AGGREGATOR,
@@ -102,6 +103,7 @@ class AnnounceIP(ParseAnnounce):
                 target=ActionTarget.ATTRIBUTE,
                 operation=ActionOperation.ADD,
                 key=ActionKey.NAME,
+                validator=LegacyParserValidator(parser_func=originator_id, name='originator-id'),
             ),
             'cluster-list': LeafList(
                 type=ValueType.IP_ADDRESS,
@@ -109,6 +111,7 @@ class AnnounceIP(ParseAnnounce):
                 target=ActionTarget.ATTRIBUTE,
                 operation=ActionOperation.ADD,
                 key=ActionKey.NAME,
+                validator=LegacyParserValidator(parser_func=cluster_list, name='cluster-list'),
             ),
             'community': LeafList(
                 type=ValueType.COMMUNITY,
